@@ -38,6 +38,11 @@ func forEachCase(ctx *Ctx, n int, f func(i int, rng *rand.Rand)) {
 
 // C02: keep-alive heavy histories; unit-level elapsed/price extremes; real-clock runs.
 func runC02(ctx *Ctx) {
+	for drv := 0; drv < 2; drv++ {
+		if ctx.Want(900200 + drv) {
+			firstCreditRace(ctx, 900200+drv, drv, "c02")
+		}
+	}
 	for c := 0; c < ctx.N(6, 60); c++ {
 		if ctx.Want(900000 + c) {
 			contractCase(ctx, 900000+c, ctx.Sub(900000+c), "keepalive", "c02-")
@@ -244,6 +249,10 @@ func runC03(ctx *Ctx) {
 		ops = append(ops, &POp{Op: "connect", Node: "c1", Kind: "geth"})
 		ops = append(ops, &POp{Op: "connect", Node: "c2", Kind: "geth"}) // fresh client: balance 0 vs minimum
 		ctx.Count(fmt.Sprintf("delta:%d", delta))
+		// every fourth history: the client posts its keep-alives and hangs up without waiting for
+		// the reply (plain HTTP allows it): the request's context is done when it is handled.
+		// Billing, the cut-off and the instructions to the hosts are the same.
+		cfg.CtxDone = i%4 == 1
 		coq, mon, done := runPoolSeq(cfg, ops)
 		ctx.Emit(Case{I: i, Kind: "threshold-" + driverNames[drv], Coq: coq, Desc: poolDesc{cfg, done}, Monitor: mon})
 	})
@@ -258,6 +267,9 @@ func runC07(ctx *Ctx) {
 		}
 		if ctx.Want(900100 + c) {
 			contractCase(ctx, 900100+c, ctx.Sub(900100+c), "restart-before-mining", "c07-")
+		}
+		if c < 2 && ctx.Want(900200+c) {
+			contractCase(ctx, 900200+c, ctx.Sub(900200+c), "many-accounts", "c07-", "c15-")
 		}
 	}
 	n := ctx.N(200, 5000)
